@@ -11,9 +11,11 @@ Abstractions (the harness `harness/props/c48.py glue_line` applies them; compare
 * a key is `none` when absent from `[storage]`; a present value is the text written after `key =` on
   that line, as symbols (no "\n"/"\r": one physical line); configparser hands the parser `value.strip()`
   — `strip` below.
-* booleans (`configparser.getboolean`): `t` for 1/yes/true/on, `f` for 0/no/false/off (any case), `bad`
-  for anything else (→ `ValueError`).
-* `expire.mode` is compared with the literals "age" and "cutoff-date": `age`, `cutoff`, or `other`.
+* booleans (`configparser.getboolean`) and `expire.mode` are classified in the model from the value text
+  (`classifyBool`, `classifyMode`, `readSection`; entry point `startStorageRaw`, which is what the driver runs):
+  `t` for 1/yes/true/on, `f` for 0/no/false/off (any case), `bad` otherwise (→ `ValueError`); `age`, `cutoff`
+  for the literals "age" / "cutoff-date", else `other`.  The theorems are stated on the classified section
+  `StorageCfg` and lifted through `readSection`.
 `storage_dir`, plugins and announcements are outside the model.
 -/
 namespace Tahoe.Config
